@@ -109,6 +109,7 @@ func (iloc *itemLoc) Copy(src *itemLoc) {
 	// NOTE: This trick only works because of the global lock. No reason to lock
 	// src independently of i.
 	iloc.loc = src.loc
+	verifYield("item-copy")
 	iloc.item = src.item
 }
 
@@ -230,6 +231,7 @@ func (iloc *itemLoc) read(c *Collection, withValue bool) (icur *Item, err error)
 func (iloc *itemLoc) NumBytes(c *Collection) int {
 	loc := iloc.Loc()
 	if loc.isEmpty() {
+		verifYield("item-numbytes")
 		i := iloc.Item()
 		if i == nil {
 			return 0
